@@ -246,23 +246,32 @@ def stress_snap(s):
     return hosts, macs
 
 
-def run_replay(ctx, binary, schedules, label):
-    """Returns None when the tree carries no gates, else (results by (id, pass), events, stderr)."""
-    sp = os.path.join(ctx.scratch, label + ".schedules")
-    with open(sp, "w") as f:
-        for i, s in enumerate(schedules):
-            f.write(json.dumps(dict(s, id=i)) + "\n")
-    rc, so, se, to = child(binary, ["-mode", "replay", "-schedule", sp], timeout=120 + len(schedules) * 2)
-    lines = [json.loads(x) for x in so.strip().splitlines() if x.startswith("{")]
-    if lines and lines[-1].get("gates") is False:
-        return None
-    a = {"mode": "replay", "schedules": label}
-    an = analyse(a, rc, "", se, to, need_result=False)
-    if not lines or not lines[-1].get("gates"):
-        if not an["events"]:
+def run_replay(ctx, binary, schedules, label, chunk=400):
+    """Returns None when the tree carries no gates, else (results by (index, pass), events, stderr).
+    The schedules are replayed by several child processes (one chunk each, four at a time)."""
+    chunks = [schedules[i:i + chunk] for i in range(0, len(schedules), chunk)]
+
+    def one(k):
+        sp = os.path.join(ctx.scratch, "%s.%d.schedules" % (label, k))
+        with open(sp, "w") as f:
+            for i, s in enumerate(chunks[k]):
+                f.write(json.dumps(dict(s, id=k * chunk + i)) + "\n")
+        return child(binary, ["-mode", "replay", "-schedule", sp], timeout=120 + len(chunks[k]) * 2)
+
+    with ThreadPoolExecutor(max_workers=4) as ex:
+        outs = list(ex.map(one, range(len(chunks))))
+    res, events, errs = {}, [], []
+    for rc, so, se, to in outs:
+        lines = [json.loads(x) for x in so.strip().splitlines() if x.startswith("{")]
+        if lines and lines[-1].get("gates") is False:
+            return None
+        an = analyse({"mode": "replay", "schedules": label}, rc, "", se, to, need_result=False)
+        if (not lines or not lines[-1].get("gates")) and not an["events"]:
             raise vlib.InfraError("replay driver gave no result (rc=%s)\n%s" % (rc, se[-3000:]))
-    res = {(x["id"], x["pass"]): x for x in lines if "id" in x}
-    return res, an["events"], se
+        res.update({(x["id"], x["pass"]): x for x in lines if "id" in x})
+        events += an["events"]
+        errs.append(se)
+    return res, events, "\n".join(errs)
 
 
 def run(ctx):
@@ -407,41 +416,40 @@ def run(ctx):
         raise vlib.InfraError("events not listed as known findings that did not show again on re-runs: %s" % unlisted)
 
 
+def _keys_of_stress(ctx, o, want_c05):
+    keys = {k for k, _, _ in o["events"]}
+    if want_c05 and o["result"]:
+        sn = [(i,) + stress_snap(s) for i, s in enumerate(o["result"].get("snapshots") or [])]
+        bad, _ = snapshots_to_tlc(ctx, sn)
+        for fs in bad.values():
+            keys |= {"C09:C05:" + f for f in fs}
+    return keys
+
+
 def reproduce(ctx, binary, key, e):
     """Re-run the configurations in which an unlisted event was seen; True if the same key shows again."""
-    tries = []
-    for w in e["where"]:
-        if w.get("mode") == "replay":
-            tries.append(w)
-        else:
-            tries += [w] * 6
-    for w in tries[:14]:
-        if w.get("mode") == "replay":
-            if "schedule" not in w:
-                continue
-            rep = run_replay(ctx, binary, [w["schedule"]], "confirm")
-            if rep is None:
-                continue
-            results, evs, _ = rep
-            keys = {k for k, _, _ in evs}
-            for r in results.values():
-                if r.get("staleDel"):
-                    keys.add("C09:KF_PurgeDeleteStale")
-                for f in r.get("c05") or []:
-                    keys.add("C09:C05:" + f.split(":")[1])
-                for p in r.get("panics") or []:
-                    keys.add("C09:panic:%s:replay" % p["msg"][:60])
-            if key in keys:
-                return True
-        else:
-            o = run_stress(binary, w)
-            keys = {k for k, _, _ in o["events"]}
-            if key.startswith("C09:C05:") and o["result"]:
-                sn = [(i,) + stress_snap(s) for i, s in enumerate(o["result"].get("snapshots") or [])]
-                bad, _ = snapshots_to_tlc(ctx, sn)
-                for fs in bad.values():
-                    keys |= {"C09:C05:" + f for f in fs}
-            if key in keys:
+    stress = [w for w in e["where"] if w.get("mode") != "replay"]
+    for w in [w for w in e["where"] if w.get("mode") == "replay" and "schedule" in w][:3]:
+        rep = run_replay(ctx, binary, [w["schedule"]], "confirm")
+        if rep is None:
+            continue
+        results, evs, _ = rep
+        keys = {k for k, _, _ in evs}
+        for r in results.values():
+            if r.get("staleDel"):
+                keys.add("C09:KF_PurgeDeleteStale")
+            for f in r.get("c05") or []:
+                keys.add("C09:C05:" + f.split(":")[1])
+            for p in r.get("panics") or []:
+                keys.add("C09:panic:%s:replay" % p["msg"][:60])
+        if key in keys:
+            return True
+    if stress:
+        tries = (stress * 8)[:16]
+        with ThreadPoolExecutor(max_workers=8) as ex:
+            outs = list(ex.map(lambda a: run_stress(binary, a), tries))
+        for o in outs:
+            if key in _keys_of_stress(ctx, o, key.startswith("C09:C05:")):
                 return True
     return False
 
